@@ -19,7 +19,7 @@ RULE = ("seeded models with 1-3 delays on 1-3 state variables written as past(x,
         "reference solution; non-trivial = >= 1 delayed term on a variable that is not the first state variable or >= 2 "
         "delays; distinct = distinct (spec, mode) hash")
 DECIDING = ['probe_points_fixed', 'probe_points_adaptive', 'euler_rows_compared', 'scipy_rows_compared', 'delays_on_nonfirst_state',
-            'multi_delay_models', 'tminus_syntax', 'past_syntax', 'vectorized_models']
+            'multi_delay_models', 'tminus_syntax', 'past_syntax', 'vectorized_models', 'long_history_runs', 'complex_history_runs']
 ASSUMPTIONS = ['delayed variables are state variables of the operator that uses them', 'constant pre-history = declared initial state',
                'adaptive runs: PyRates records accepted steps only, its linear interpolation error is tolerated (2e-3 relative)']
 CASE_TIMEOUT = 300
@@ -45,6 +45,10 @@ def plan(tier, seed):
     for _ in range(24 if tier == 'quick' else 500):
         cases.append({'family': 'param_delays', 'cseed': rnd.randrange(1 << 30),
                       'mode': rnd.choice(['probe_fixed', 'probe_adaptive', 'probe_adaptive', 'euler', 'scipy'])})
+    # long runs (more history records than the initial capacity of the history buffer) of linear DDEs, real and complex valued,
+    # against a hand-written loop that reads the delayed value from the trajectory computed so far
+    for _ in range(8 if tier == 'quick' else 120):
+        cases.append({'family': 'long_history', 'cseed': rnd.randrange(1 << 30), 'mode': 'long_history'})
     opened = open_risks(PID)
     k = 10 if tier == 'quick' else 80
     for feat in FOCUS:
@@ -219,7 +223,61 @@ def ref_fine(ref, T, times, keys, h=2e-5):
     return np.array(out)
 
 
+def run_long_history(case, ctx):
+    """z' = c*z + k*past(z, tau), tau = m*dt, Euler for 1100-2600 steps; complex (complex128) or real (float64) coefficients"""
+    from pyrates import OperatorTemplate, NodeTemplate, CircuitTemplate
+    rnd = random.Random(case['cseed'])
+    cplx = rnd.random() < 0.6
+    mk = (lambda: complex(round(rnd.uniform(-0.9, 0.9), 3), round(rnd.uniform(-2.0, 2.0), 3))) if cplx else (lambda: round(rnd.uniform(-0.9, 0.9), 3))
+    z0, c, k = mk(), mk(), mk()
+    if cplx:
+        c = complex(-abs(c.real), c.imag)
+    else:
+        c = -abs(c)
+    dt = 1e-3
+    lag = rnd.randint(5, 400)
+    tau = round(lag * dt, 6)
+    steps = rnd.randint(1100, 2600)
+    mech = {'long_history_runs': 1, 'complex_history_runs': 1 if cplx else 0}
+    res = {'features': ['long_history', 'complex' if cplx else 'real'], 'risk': [], 'sig': stable_hash([z0.real if cplx else z0, str(c), str(k), lag, steps]),
+           'nontrivial': True}
+    ref = np.empty(steps + 1, dtype=np.complex128 if cplx else np.float64)
+    ref[0] = z0
+    for i in range(steps):
+        zd = ref[i - lag] if i >= lag else z0
+        ref[i + 1] = ref[i] + dt * (c * ref[i] + k * zd)
+    ref = ref[:steps]
+    fmt = (lambda v: f"{v.real!r}{'+' if v.imag >= 0 else '-'}{abs(v.imag)!r}j") if cplx else (lambda v: repr(float(v)))
+    try:
+        op = OperatorTemplate(name='op', equations=[f"d/dt * z = c*z + k*past(z, {tau!r})"],
+                              variables={'z': f'output({fmt(z0)})', 'c': c, 'k': k})
+        net = CircuitTemplate(name='net', nodes={'p': NodeTemplate(name='n', operators=[op])})
+        out = net.run(simulation_time=steps * dt, step_size=dt, sampling_step_size=dt, solver='euler', backend='default', outputs={'z': 'p/op/z'},
+                      vectorize=False, clear=True, in_place=False, verbose=False, float_precision='complex128' if cplx else 'float64')
+        z = np.asarray(out['z'].values).squeeze()
+    except Exception as e:
+        import traceback
+        res.update(status='violation', symptom=f"loud: long DDE run raised {type(e).__name__}: {e} :: {traceback.format_exc()[-300:]}", mech=mech)
+        return res
+    if z.shape != ref.shape:
+        res.update(status='violation', symptom=f"silent: long DDE run returned shape {z.shape}, expected {ref.shape}", mech=mech)
+        return res
+    err = np.abs(z - ref)
+    bad = np.flatnonzero(err > 1e-9 * max(1.0, float(np.abs(ref).max())))
+    if bad.size:
+        i = int(bad[0])
+        res.update(status='violation', mech=mech,
+                   symptom=(f"silent: {'complex' if cplx else 'real'} DDE z' = c*z + k*past(z, {tau}) over {steps} Euler steps: first deviation from the "
+                            f"hand-written loop at step {i} (PyRates {z[i]!r}, reference {ref[i]!r}); steps before that agree"))
+        return res
+    mech['euler_rows_compared'] = steps
+    res.update(status='ok', symptom='', mech=mech, sample={'z0': str(z0), 'c': str(c), 'k': str(k), 'lag_steps': lag, 'steps': steps})
+    return res
+
+
 def run_case(case, ctx):
+    if case.get('family') == 'long_history':
+        return run_long_history(case, ctx)
     rnd = random.Random(case['cseed'])
     if case.get('spec') is not None:
         spec, info = case['spec'], case['info']
